@@ -518,6 +518,13 @@ Section partition.
   Qed.
 End partition.
 
+Lemma Forall_filter_keep {A} (P Q : A → Prop) `{∀ x, Decision (Q x)} (l : list A) :
+  Forall P l → Forall P (filter Q l).
+Proof.
+  intros HF. apply Forall_forall. intros x Hx. apply elem_of_list_filter in Hx as [_ Hx].
+  by apply (proj1 (Forall_forall _ _) HF).
+Qed.
+
 Definition kv_of (d : kdigest) : N * N := (kd_key d, kd_val d).
 Definition kd_u64 (d : kdigest) : Prop := kd_key d < M64 ∧ kd_val d < M64.
 
@@ -731,8 +738,8 @@ Section main.
     { intros i Hi. apply (from_digests_hash_inj h S HS).
       - by apply In1, in_inputs_bucket.
       - by apply In2, in_inputs_bucket.
-      - unfold bucket_digests. by apply Forall_filter.
-      - unfold bucket_digests. by apply Forall_filter.
+      - unfold bucket_digests. by apply Forall_filter_keep.
+      - unfold bucket_digests. by apply Forall_filter_keep.
       - by apply Hnodes. }
     (* hence over the whole state *)
     assert (Hkv : map kvf l1 ≡ₚ map kvf l2).
@@ -756,3 +763,87 @@ Section main.
     destruct e1, e2; simpl in *; congruence.
   Qed.
 End main.
+
+(* ---------- consequences and sanity of the executable definitions ---------- *)
+Lemma visible_states_differ h depth (l1 l2 : list (list N * rvalue)) :
+  HashOK h (hash_inputs h depth l1 ++ hash_inputs h depth l2) →
+  Forall (λ e, DigestVisible e.2) l1 → Forall (λ e, DigestVisible e.2) l2 →
+  ¬ l1 ≡ₚ l2 →
+  differs (from_state h depth l1) (from_state h depth l2) = true.
+Proof.
+  intros HS V1 V2 Hne. unfold differs.
+  destruct (sd_root (from_state h depth l1) =? sd_root (from_state h depth l2)) eqn:He; [|done].
+  exfalso. apply Hne. apply N.eqb_eq in He. by apply (equal_digest_equal_state_lemma h depth).
+Qed.
+
+Lemma hash_ok_b_sound h S : hash_ok_b h S = true → HashOK h S.
+Proof.
+  unfold hash_ok_b. rewrite andb_true_iff, !forallb_forall. intros [Hr Hi]. split.
+  - intros x Hx. apply elem_of_list_In, Hr in Hx.
+    apply andb_true_iff in Hx as [?%N.ltb_lt ?%N.ltb_lt]. done.
+  - intros x y Hx Hy He. apply elem_of_list_In in Hx, Hy.
+    specialize (Hi x Hx). rewrite forallb_forall in Hi. specialize (Hi y Hy).
+    rewrite He, N.eqb_refl in Hi. simpl in Hi. by apply bool_decide_eq_true_1 in Hi.
+Qed.
+
+Lemma low_bits_mod depth x : low_bits depth x = x mod 2 ^ depth.
+Proof. apply N.land_ones. Qed.
+
+Lemma key_bucket_digest h depth k v : bucket_of depth (key_digest h k v) = key_bucket h depth k.
+Proof. reflexivity. Qed.
+
+(* a concrete instance of the hypotheses of equal_digest_equal_state *)
+Definition ex_l1 : list (list N * rvalue) :=
+  [([107;49], lwwv [97] 1 1); ([107;50], lwwv [98] 2 1); ([107;51], lwwv [] 3 2)].
+Definition ex_l2 : list (list N * rvalue) :=
+  [([107;51], lwwv [] 3 2); ([107;49], lwwv [97] 1 1); ([107;50], lwwv [98] 2 1)].
+Definition ex_l3 : list (list N * rvalue) :=
+  [([107;51], lwwv [] 3 2); ([107;49], lwwv [97] 1 1); ([107;50], lwwv [99] 2 1)].
+
+Lemma lwwv_visible b t r : t < M64 → r < M64 → DigestVisible (lwwv b t r).
+Proof. intros Ht Hr. eexists. repeat split; try reflexivity; try done; discriminate. Qed.
+
+Lemma ex_hash_ok :
+  ex_l1 ≠ ex_l2 ∧
+  HashOK sip13f (hash_inputs sip13f 1 ex_l1 ++ hash_inputs sip13f 1 ex_l2) ∧
+  HashOK sip13f (hash_inputs sip13f 1 ex_l1 ++ hash_inputs sip13f 1 ex_l3) ∧
+  Forall (λ e, DigestVisible e.2) ex_l1 ∧ Forall (λ e, DigestVisible e.2) ex_l2 ∧
+  Forall (λ e, DigestVisible e.2) ex_l3 ∧
+  sd_root (from_state sip13f 1 ex_l1) = sd_root (from_state sip13f 1 ex_l2) ∧
+  differs (from_state sip13f 1 ex_l1) (from_state sip13f 1 ex_l3) = true.
+Proof.
+  split; [discriminate|].
+  split; [apply hash_ok_b_sound; vm_compute; reflexivity|].
+  split; [apply hash_ok_b_sound; vm_compute; reflexivity|].
+  split; [repeat constructor; by apply lwwv_visible|].
+  split; [repeat constructor; by apply lwwv_visible|].
+  split; [repeat constructor; by apply lwwv_visible|].
+  split; vm_compute; reflexivity.
+Qed.
+
+(* a concrete instance of the hypotheses of sync_round_merges *)
+Definition ex_sa : list (list N * rvalue) := [([107;49], lwwv [120] 1 1)].
+Definition ex_sb : list (list N * rvalue) :=
+  [([107;49], lwwv [121] 2 2); ([107;50], lwwv [122] 1 2)].
+
+Lemma ex_sync_hyps :
+  NoDup (ex_sa.*1) ∧ NoDup (ex_sb.*1) ∧
+  differs (from_state sip13f 1 ex_sa) (from_state sip13f 1 ex_sb) = true ∧
+  Covering sip13f 1 2 ex_sa ex_sb ∧
+  (∀ k a b, (list_to_map ex_sa : gmap (list N) rvalue) !! k = Some a →
+            (list_to_map ex_sb : gmap (list N) rvalue) !! k = Some b → Compatible a b) ∧
+  (sync_round sip13f 1 2 ex_sa ex_sb).1 ≠ list_to_map ex_sa.
+Proof.
+  split; [apply (bool_decide_unpack _); vm_compute; exact I|].
+  split; [apply (bool_decide_unpack _); vm_compute; exact I|].
+  split; [vm_compute; reflexivity|].
+  split; [split; vm_compute; lia|].
+  split.
+  - intros k a b Ha Hb. unfold ex_sa in Ha. cbn [list_to_map foldr fst snd] in Ha.
+    apply lookup_insert_Some in Ha as [[<- <-]|[_ Ha]]; [|by rewrite lookup_empty in Ha].
+    unfold ex_sb in Hb. cbn [list_to_map foldr fst snd] in Hb.
+    rewrite lookup_insert in Hb. injection Hb as <-.
+    unfold Compatible, lww_compat, lwwv. cbn. intros Hts. discriminate.
+  - intros H. apply (f_equal (λ m : gmap (list N) rvalue, bool_decide (m !! [107;50] = None))) in H.
+    vm_compute in H. discriminate.
+Qed.
